@@ -36,6 +36,7 @@ import (
 	"github.com/rqlite/rqlite/v10/internal/random"
 	"github.com/rqlite/rqlite/v10/internal/rsum"
 	"github.com/rqlite/rqlite/v10/internal/rsync"
+	"github.com/rqlite/rqlite/v10/internal/vhook"
 	"github.com/rqlite/rqlite/v10/snapshot"
 	rlog "github.com/rqlite/rqlite/v10/store/log"
 	"github.com/rqlite/rqlite/v10/store/throttler"
@@ -981,6 +982,7 @@ func (s *Store) Close(wait bool) (retErr error) {
 		s.logger.Println("snapshot-on-close took ", time.Since(startT))
 	}
 
+	vhook.Point("store.close.before_gate")
 	if err := s.snapshotCAS.BeginWithRetry("close", 10*time.Millisecond, 10*time.Second); err != nil {
 		return err
 	}
@@ -2002,10 +2004,12 @@ func (s *Store) ReadFrom(r io.Reader) (int64, error) {
 		return n, err
 	}
 
+	vhook.Point("boot.after_noop")
 	// Swap in new database file.
 	if err := s.db.Swap(f.Name(), s.dbConf.FKConstraints, true); err != nil {
 		return n, fmt.Errorf("error swapping database file: %v", err)
 	}
+	vhook.Point("boot.after_swap")
 
 	// Swapping in a new database unregisters any registered CDC hooks, so signal that it
 	// needs to be reregistered on the next change.
@@ -2015,9 +2019,11 @@ func (s *Store) ReadFrom(r io.Reader) (int64, error) {
 	if err := s.snapshotStore.SetDueNext(snapshot.Full); err != nil {
 		s.logger.Fatalf("failed to set full snapshot needed: %s", err)
 	}
+	vhook.Point("boot.after_set_due_next")
 	if err := s.Snapshot(1); err != nil {
 		return n, err
 	}
+	vhook.Point("boot.after_snapshot")
 	stats.Add(numBoots, 1)
 	return n, nil
 }
@@ -2438,9 +2444,11 @@ func (s *Store) waitForLinearizableRead(currReadTerm uint64, linearizableTimeout
 	// Implement the technique from the Raft dissertation, section
 	// 6.4 "Processing read-only queries more efficiently".
 	readIndex := s.raft.CommitIndex()
+	vhook.Point("linread.after_commit_index")
 	if err := s.VerifyLeader(); err != nil {
 		return err
 	}
+	vhook.Point("linread.after_verify_leader")
 	if s.raft.CurrentTerm() != currReadTerm {
 		return ErrStaleRead
 	}
@@ -2453,6 +2461,7 @@ func (s *Store) waitForLinearizableRead(currReadTerm uint64, linearizableTimeout
 	ch := s.fsmTarget.Subscribe(readIndex)
 	select {
 	case <-ch:
+		vhook.Point("linread.before_return")
 		return nil
 	case <-time.After(lt):
 		return fmt.Errorf("index %d: %w", readIndex, ErrWaitForFSMTimeout)
@@ -2489,6 +2498,7 @@ type fsmGenericResponse struct {
 
 // fsmApply applies a Raft log entry to the database.
 func (s *Store) fsmApply(l *raft.Log) (e any) {
+	vhook.Point("fsm.apply.entry")
 	startT := time.Now()
 	defer func() {
 		s.fsmIdx.Store(l.Index)
@@ -2644,6 +2654,7 @@ func (s *Store) fsmSnapshot() (fSnap raft.FSMSnapshot, retErr error) {
 			s.numFullSnapshotsMetaFail.Add(1)
 			return nil, fmt.Errorf("checkpoint did not succeed during full snapshot")
 		}
+		vhook.Point("fsmsnapshot.full.after_checkpoint")
 		streamer, err := snapshot.NewSnapshotStreamer(s.db.Path())
 		if err != nil {
 			return nil, err
@@ -2694,6 +2705,7 @@ func (s *Store) fsmSnapshot() (fSnap raft.FSMSnapshot, retErr error) {
 			return nil, err
 		}
 		s.numIncSnapshots.Add(1)
+		vhook.Point("fsmsnapshot.inc.after_checkpoint")
 
 		// Now that the database has been truncated successfully, the WAL file in the Staging directory
 		// should be marked valid. If we crash here, on restart we delete the Staging directory, but since
@@ -2706,6 +2718,7 @@ func (s *Store) fsmSnapshot() (fSnap raft.FSMSnapshot, retErr error) {
 		if err := walWriter.Close(); err != nil {
 			return nil, err
 		}
+		vhook.Point("fsmsnapshot.inc.after_wal_close")
 
 		// When it comes to incremental snapshotting of WAL files, we pass the WAL directory path to the
 		// Snapshot Store indirectly via the header. The Snapshotting system knows to check for this. It
@@ -2780,6 +2793,7 @@ func (s *Store) fsmRestore(rc io.ReadCloser) (retErr error) {
 		rc.Close()
 		return fmt.Errorf("error restoring database from snapshot: %v", err)
 	}
+	vhook.Point("fsmrestore.after_restore_tmp")
 
 	// The snapshot stream is now fully drained into tmpPath, so close the reader
 	// immediately. Do this so we're not holding onto the underlying LockingStreamer
@@ -2793,14 +2807,17 @@ func (s *Store) fsmRestore(rc io.ReadCloser) (retErr error) {
 	if err := fsutil.RemoveFile(s.cleanSnapshotPath); err != nil {
 		return fmt.Errorf("failed to remove clean snapshot file: %w", err)
 	}
+	vhook.Point("fsmrestore.after_fp_remove")
 	if err := s.db.Swap(tmpPath, s.dbConf.FKConstraints, true); err != nil {
 		return fmt.Errorf("error swapping database file: %v", err)
 	}
 	s.logger.Printf("successfully opened database at %s due to restore", s.db.Path())
+	vhook.Point("fsmrestore.after_swap")
 	// Installed SQLite database is safe for fast restarts again.
 	if err := s.createSnapshotFingerprint(); err != nil {
 		return fmt.Errorf("failed to create snapshot fingerprint post restore: %s", err)
 	}
+	vhook.Point("fsmrestore.after_fingerprint")
 
 	// Take conservative approach and assume that everything has changed, so update
 	// the indexes. It is possible that dbAppliedIdx is now ahead of some other nodes'
@@ -3053,6 +3070,7 @@ func (s *Store) selfLeaderChange(leader bool) {
 }
 
 func (s *Store) createSnapshotFingerprint() error {
+	vhook.Point("fingerprint.begin")
 	tmpFP := s.cleanSnapshotPath + ".tmp"
 	defer os.Remove(tmpFP)
 	mt, err := s.db.DBLastModified()
@@ -3078,6 +3096,7 @@ func (s *Store) createSnapshotFingerprint() error {
 	if err := fp.WriteToFile(tmpFP); err != nil {
 		return fmt.Errorf("failed to write snapshot fingerprint to temp file: %s", err)
 	}
+	vhook.Point("fingerprint.after_tmp_write")
 	return os.Rename(tmpFP, s.cleanSnapshotPath)
 }
 
